@@ -226,6 +226,12 @@ def monitor_leaks(res):
         vs.append(V("C05", "leak@conn", "%d plugin connection(s) still open after the run returned: %s" % (res["open_conns"], srcs)))
     if res.get("prepare_open_conns"):
         vs.append(V("C05", "leak@conn:prepare", "%d plugin connection(s) open after Prepare returned" % res["prepare_open_conns"]))
+    # goroutines of the run that are still *blocked* inside engine code at the moment Execute returned (a goroutine that is
+    # merely on its way out after signalling its wait-group is runnable, not blocked, and is ignored here)
+    for g in res.get("census_at_return") or []:
+        state = g.split(" @ ")[0]
+        if state in ("select", "chan receive", "chan send", "sleep", "semacquire", "sync.Cond.Wait", "sync.Mutex.Lock", "sync.WaitGroup.Wait", "IO wait"):
+            vs.append(V("C05", "alive-at-return@" + g.split(" @ ")[-1].split(" <- ")[0], "goroutine started for the run is still alive (%s) when Execute returned: %s" % (state, g)))
     for g in res.get("leak") or []:
         vs.append(V("C05", "leak@" + g.split(" @ ")[-1].split(" <- ")[0], "goroutine alive after the run returned and settled: %s" % g))
     for g in res.get("prepare_leak") or []:
